@@ -974,6 +974,116 @@ theorem xfcc_identity_cn (last : Bool) (ps : List RPair) (es : List (List RPair)
   rw [xfcc_identity last ps es h more]
   simp only [hsub, cn_of_subject rs hr]
 
+/-! ## Blank elements are skipped -/
+
+/-- A piece between two commas: white space only (possibly nothing), or a real element. -/
+inductive Piece
+  | blank (b : Bytes)
+  | elem (ps : List RPair)
+
+def renderPiece : Piece → Bytes
+  | .blank b => b
+  | .elem ps => renderElem ps
+
+def WFPiece : Piece → Prop
+  | .blank b => ∀ c ∈ b, asciiSpace c = true
+  | .elem ps => ps ≠ [] ∧ ∀ p ∈ ps, WFPair p
+
+/-- The real elements among the pieces, in order. -/
+def pieceElems : List Piece → List (List RPair)
+  | [] => []
+  | .blank _ :: r => pieceElems r
+  | .elem ps :: r => ps :: pieceElems r
+
+theorem trimLeft_blank : ∀ (b : Bytes), (∀ c ∈ b, asciiSpace c = true) → trimLeft b = []
+  | [], _ => rfl
+  | [a], h => by simp [trimLeft, h a (by simp)]
+  | [a, b], h => by
+    simp only [trimLeft, h a (by simp), if_true]
+    exact trimLeft_blank [b] (fun c hc => h c (by simp at hc; simp [hc]))
+  | a :: b :: c :: r, h => by
+    simp only [trimLeft, h a (by simp), if_true]
+    exact trimLeft_blank (b :: c :: r) (fun x hx => h x (by simp at hx ⊢; right; exact hx))
+
+theorem trimSpace_blank (b : Bytes) (h : ∀ c ∈ b, asciiSpace c = true) : trimSpace b = [] := by
+  unfold trimSpace
+  rw [trimLeft_blank b h]
+  rfl
+
+theorem asciiSpace_inert {c : UInt8} (h : asciiSpace c = true) : c ≠ dq ∧ c ≠ bs ∧ c ≠ comma := by
+  refine ⟨?_, ?_, ?_⟩ <;> (intro e; subst e; revert h; decide)
+
+theorem scanQ_piece (pc : Piece) (h : WFPiece pc) : scanQ comma false (renderPiece pc) = some false := by
+  cases pc with
+  | blank b => exact scanQ_inert comma b false (fun c hc => asciiSpace_inert (h c hc))
+  | elem ps =>
+    obtain ⟨hne, hw⟩ := h
+    cases ps with
+    | nil => exact absurd rfl hne
+    | cons p rest => exact scanQ_renderElem p rest hw
+
+theorem filterMap_pieces : ∀ (pcs : List Piece), (∀ pc ∈ pcs, WFPiece pc) →
+    (pcs.map renderPiece).filterMap (fun raw =>
+      let t := trimSpace raw
+      if t.isEmpty then none else some (parseElement t)) = (pieceElems pcs).map assemble
+  | [], _ => rfl
+  | .blank b :: r, h => by
+    have hb : WFPiece (.blank b) := h _ (by simp)
+    simp only [List.map_cons, renderPiece, List.filterMap_cons, trimSpace_blank b hb, pieceElems]
+    exact filterMap_pieces r (fun q hq => h q (by simp [hq]))
+  | .elem ps :: r, h => by
+    have hp : WFPiece (.elem ps) := h _ (by simp)
+    obtain ⟨p, rest, rfl⟩ : ∃ p rest, ps = p :: rest := by
+      cases ps with
+      | nil => exact absurd rfl hp.1
+      | cons p rest => exact ⟨p, rest, rfl⟩
+    have ends := renderElem_ends p rest hp.2
+    have ht : trimSpace (renderElem (p :: rest)) = renderElem (p :: rest) :=
+      trimSpace_ends ends.1 ends.2
+    have hne : (renderElem (p :: rest)).isEmpty = false := by
+      obtain ⟨c, t, e, _⟩ := ends.1
+      rw [e]; rfl
+    simp only [List.map_cons, renderPiece, List.filterMap_cons, ht, hne, Bool.false_eq_true,
+      if_false, parseElement_render p rest hp.2, pieceElems]
+    rw [filterMap_pieces r (fun q hq => h q (by simp [hq]))]
+
+/-- **xfcc_roundtrip_blanks** — white-space-only and empty pieces between commas, anywhere in the
+header (leading, trailing, in the middle), contribute no element: the parse is exactly the list of
+the real elements. -/
+theorem xfcc_roundtrip_blanks (pc : Piece) (pcs : List Piece) (h : ∀ q ∈ pc :: pcs, WFPiece q) :
+    parseXfcc (joinWith comma ((pc :: pcs).map renderPiece)) = (pieceElems (pc :: pcs)).map assemble := by
+  unfold parseXfcc splitRespectingQuotes
+  have hs : ∀ t ∈ renderPiece pc :: pcs.map renderPiece, scanQ comma false t = some false := by
+    intro t ht
+    rw [← List.map_cons] at ht
+    obtain ⟨q, hq, rfl⟩ := List.mem_map.mp ht
+    exact scanQ_piece q (h q hq)
+  rw [List.map_cons, split_join comma (by decide) _ _ [] hs]
+  simp only [List.nil_append]
+  rw [← List.map_cons]
+  exact filterMap_pieces (pc :: pcs) h
+
+/-- **xfcc_identity_blanks** — the default identity skips blank pieces: it is the CN of the subject
+of the first (last) REAL element, and a header made of blank pieces only is never accepted. -/
+theorem xfcc_identity_blanks (last : Bool) (pc : Piece) (pcs : List Piece)
+    (h : ∀ q ∈ pc :: pcs, WFPiece q) (more : List Bytes) :
+    xfccAuth last (joinWith comma ((pc :: pcs).map renderPiece) :: more) =
+      if (joinWith comma ((pc :: pcs).map renderPiece)).isEmpty then .missing
+      else match (if last then (pieceElems (pc :: pcs)).getLast? else (pieceElems (pc :: pcs)).head?) with
+        | none => .empty
+        | some ps => .ok (extractCN (assemble ps).subject) (assemble ps) := by
+  by_cases he : (joinWith comma ((pc :: pcs).map renderPiece)).isEmpty = true
+  · simp only [xfccAuth, List.headD_cons, he, if_true]
+  · simp only [xfccAuth, List.headD_cons, he, Bool.false_eq_true, if_false]
+    rw [xfcc_roundtrip_blanks pc pcs h]
+    cases last with
+    | false =>
+      simp only [Bool.false_eq_true, if_false, List.head?_map]
+      cases (pieceElems (pc :: pcs)).head? <;> rfl
+    | true =>
+      simp only [if_true, List.getLast?_map]
+      cases (pieceElems (pc :: pcs)).getLast? <;> rfl
+
 /-! ## Non-vacuity (evaluating the executable definitions) -/
 
 /-- tokens "s3cret" ↦ 0, "s3cre" ↦ 1 (a proper prefix), "" ↦ 2 -/
@@ -1018,5 +1128,11 @@ example : xfccAuth false [[72, 97, 115, 104, 61, 97, 98, 59, 83, 117, 98, 106, 1
 /-- noise: an unbalanced quote swallows the rest; `%zz` is left as is; NBSP is trimmed. -/
 example : (parseXfcc [72, 97, 115, 104, 61, 34, 97, 44, 72, 97, 115, 104, 61, 98, 59, 83, 117, 98, 106, 101, 99, 116, 61, 99]).length = 1 ∧
     (parseXfcc [85, 82, 73, 61, 37, 122, 122]) = [{ uri := [37, 122, 122] }] ∧ trimSpace [194, 160, 97, 226, 128, 131, 32] = [97] := by decide
+
+/-- blank pieces at either end: ` ,Hash=ab, ` parses to the one real element; a header of blanks
+only is refused (seeded change C24-f). -/
+example : parseXfcc [32, 44, 72, 97, 115, 104, 61, 97, 98, 44, 32] = [{ hash := [97, 98] }] ∧ xfccAuth true [[32, 44, 72, 97, 115, 104, 61, 97, 98, 44, 32]] = .ok [] { hash := [97, 98] } ∧
+    xfccAuth true [[32, 44, 32]] = .empty ∧ xfccAuth false [[32, 44, 83, 117, 98, 106, 101, 99, 116, 61, 34, 67, 78, 61, 120, 34, 44, 32]] = .ok [120] { subject := [67, 78, 61, 120] } := by
+  decide
 
 end Vgi.Props.C24
